@@ -17,6 +17,8 @@ ASSUMPTIONS = [
     "'removed => all its operations scheduled' is demanded",
     "'detached' sub-spaces create the updater with subscribe=False (its completion observer listens from the start) and subscribe it by hand "
     "before a chosen dispatch; the invariants are demanded from the first dispatch it sees",
+    "'late' sub-spaces CREATE the updater (and with it its completion observer) only after a chosen number >= 1 of dispatches, on the partly "
+    "dispatched dispatcher (plain, or after current_time/completed/ongoing queries); all clauses are demanded from the first dispatch it sees",
     "a machine's operations are all operations eligible on it; the final clause (everything removed) is demanded only with the default "
     "options and on structures where every machine has at least one operation",
 ]
@@ -52,6 +54,9 @@ def subspaces(tier):
         out += C.structure_subspaces(D.shapes(3, 3), 2, False, canonical=True, builder=b, options=[True, True], filter="none", second=True)
     for b in BUILDERS:
         out += C.structure_subspaces(D.shapes(3, 3), 2, False, canonical=True, builder=b, options=[True, True], filter="none", detached=True)
+    for b in BUILDERS:
+        out += C.structure_subspaces(D.shapes(3, 3) + [(2, 2)], 2, False, canonical=True, builder=b, options=[True, True], filter="none", late="plain")
+        out += C.structure_subspaces(D.shapes(3, 3), 2, False, canonical=True, builder=b, options=[True, True], filter="none", late="queried")
     s5 = [s for s in D.shapes(3, 5) if sum(s) == 5]
     for b in (["disj", "at"] if tier == "quick" else BUILDERS):
         out += C.structure_subspaces(s5, 3, False, canonical=True, builder=b, options=[True, True], filter="none")
@@ -64,7 +69,7 @@ def subspaces(tier):
 
 
 def cost(sp):
-    return C.cost(sp) * 2 * (C.cost(sp) if sp.get('second') else 1) * (sum(sp['shape']) if sp.get('detached') else 1)
+    return C.cost(sp) * 2 * (C.cost(sp) if sp.get('second') else 1) * (sum(sp['shape']) if sp.get('detached') or sp.get('late') else 1)
 
 
 def harness(eng, sp):
@@ -81,14 +86,21 @@ def harness(eng, sp):
     disp = Dispatcher(inst, ready_operations_filter=filt)
     rm_m, rm_j = sp["options"]
     key = f"C17/{sp['builder']}"
-    try:
-        upd = ResidualGraphUpdater(disp, builders[sp["builder"]](inst), remove_completed_machine_nodes=rm_m,
-                                   remove_completed_job_nodes=rm_j, subscribe=not sp.get("detached"))
-    except E.Unsupported:
-        raise
-    except Exception as ex:
-        eng.fail(key + f"/constructor-raises-{type(ex).__name__}", f"{ex}"[:200])
-        return
+    def make_updater():
+        try:
+            return ResidualGraphUpdater(disp, builders[sp["builder"]](inst), remove_completed_machine_nodes=rm_m,
+                                        remove_completed_job_nodes=rm_j, subscribe=not sp.get("detached"))
+        except E.Unsupported:
+            raise
+        except Exception as ex:
+            eng.fail(key + f"/constructor-raises-{type(ex).__name__}", f"{ex}"[:200])
+            return None
+
+    upd = None
+    if not sp.get("late"):
+        upd = make_updater()
+        if upd is None:
+            return
     if sp.get("second"):
         # an earlier episode of chosen length on the same dispatcher, then reset(): the invariants must hold in the new episode too
         s0 = Spec(desc)
@@ -103,9 +115,18 @@ def harness(eng, sp):
     by_m = [[o for o in range(n) if m in desc.machines[o]] for m in range(M)]
     prev_removed = set()
     attach_at = eng.choice(n, "attach-before-dispatch") if sp.get("detached") else 0
+    if sp.get("late"):
+        attach_at = 1 + eng.choice(n - 1, "create-before-dispatch") if n > 1 else 0
+        key += "/late"
     for k in range(n):
         if sp.get("detached") and k == attach_at:
             disp.subscribe(upd)     # created detached at the start (its completion observer has been listening), attached only now
+        if sp.get("late") and k == attach_at:
+            if sp["late"] == "queried":
+                disp.current_time(), disp.completed_operations(), disp.ongoing_operations()
+            upd = make_updater()    # updater (and its completion observer) created only now, on a partly dispatched dispatcher
+            if upd is None:
+                return
         op, m = D.choose_dispatch(eng, desc, spec)
         try:
             disp.dispatch(D.op_by_id(inst, op), m)
@@ -119,7 +140,7 @@ def harness(eng, sp):
         spec.apply(op, m)
         eng.reachable("transition")
         eng.reachable("state")
-        if sp.get("detached") and k < attach_at:
+        if (sp.get("detached") or sp.get("late")) and k < attach_at:
             continue
         g = upd.job_shop_graph
         flags = list(g.removed_nodes)
